@@ -66,6 +66,13 @@ func slice(slice []interface{}, parts []sliceParam) ([]interface{}, error) {
 		return nil, err
 	}
 	start, stop, step := computed[0], computed[1], computed[2]
+	// A step whose magnitude exceeds the length selects at most one element.
+	// Clamp it so that "i += step" below cannot overflow.
+	if step > len(slice) {
+		step = len(slice) + 1
+	} else if step < -len(slice) {
+		step = -len(slice) - 1
+	}
 	result := []interface{}{}
 	if step > 0 {
 		for i := start; i < stop; i += step {
